@@ -3,6 +3,7 @@ import NodisVerif.Proofs.C09Sound
 import NodisVerif.Proofs.C09Full
 import NodisVerif.Proofs.C09Writers3
 import NodisVerif.Proofs.C09IncrExec
+import NodisVerif.Proofs.GateInv
 /-
   C09 — WATCH is sound optimistic locking: a changed watched key always aborts EXEC.
 
@@ -761,6 +762,42 @@ example : Proofs.C09Incr.CounterIs kk ({ pebble := true } : MState) 0 := Or.inl 
 example : ((0 + 10 : Nat) : Int) ≤ int64Max := by decide
 
 end Examples
+
+/-! ## the watch check under real concurrency (the gate of Model/Gate.lean)
+
+  The sequential theorems above treat EXEC's look at its watch flags and its queued bodies as one step.
+  In the server several goroutines run; what makes that one step is `store.execMu`. Over every run of
+  the gate protocol (whose steps the implementation reports and the check replays): -/
+section gate
+open NodisVerif.Gate
+
+/-- From EXEC's look at the watch flags (`chk g` accepted) on, in every continuation until `g` leaves
+    the gate, no watch signal and no transaction of another goroutine that serves a connection is
+    accepted: a write by another client either finished - with its signal - before the check, and is
+    then seen by it, or begins after the last queued body. -/
+theorem no_client_write_between_check_and_bodies (pre seg : List Ev) (s s' : GState)
+    (hr : Gate.run {} pre = some s) (g : G) (hc : Gate.step s (.chk g) = some s')
+    (hn : Ev.gout g ∉ seg) : SegOk g s' seg := by
+  have hx : s.holdsX g = true := by
+    simp only [Gate.step] at hc; split at hc <;> first | assumption | cases hc
+  have hs : s' = s := by simp only [Gate.step, hx, if_true] at hc; cases hc; rfl
+  subst hs
+  exact segment_inside_section seg s' g (inv_run pre {} s' inv_init hr) hx hn
+
+/-- A watch signal of a goroutine that serves a connection is only accepted under the gate. -/
+theorem client_signal_is_gated (es : List Ev) (s s' : GState) (_hr : Gate.run {} es = some s) (g : G)
+    (hs : Gate.step s (.sig g) = some s') (hc : s.isClient g = true) : s.holds g = true := by
+  simp only [Gate.step] at hs
+  split at hs
+  · rename_i h; simpa [GState.allowed, hc] using h
+  · cases hs
+
+/-- non-vacuity / the repaired defect: a signal from client 2 between client 1's check and its bodies
+    is not a run of the protocol -/
+theorem signal_inside_foreign_exec_rejected :
+    Gate.run {} [.serve 1, .serve 2, .gin 1 .x, .chk 1, .sig 2] = none := by decide
+
+end gate
 
 /- UNPROVED: `SignalsChanges` for SCAN with a TYPE option (the scan loads cold records of unknown type;
    showing that this is no logical change needs an index invariant — live record, distinct keys — that
